@@ -54,6 +54,9 @@ func fieldOf(v ssa.Value, field string) (ssa.Value, bool) {
 
 // loopHeaderOf returns the block holding the rangeindex phi that idx derives from.
 func rangeHeader(idx ssa.Value) *ssa.BasicBlock {
+	if phi, isPhi := idx.(*ssa.Phi); isPhi {
+		return phi.Block()
+	}
 	bo, ok := idx.(*ssa.BinOp)
 	if !ok {
 		return nil
